@@ -1103,6 +1103,25 @@ fn corpus() -> Vec<(&'static str, SchemaD)> {
             },
         ));
     }
+    // the registry of a federation-enabled schema, exported WITHOUT .federation():
+    // _Any, _Entity, _Service and the two root fields are ordinary named things
+    v.push((
+        "federation-types-plain-export",
+        SchemaD {
+            types: vec![
+                TypeD { name: "_Any".into(), desc: Some("The `_Any` scalar is used to pass representations of entities from external services into the root `_entities` field for execution.".into()), dirs: vec![], kind: KindD::Scalar { url: None } },
+                TypeD { name: "_Entity".into(), desc: None, dirs: vec![], kind: KindD::Union { possible: vec!["User".into()] } },
+                TypeD { name: "_Service".into(), desc: None, dirs: vec![], kind: KindD::Object { fields: vec![f("sdl", "String")], implements: vec![] } },
+                TypeD { name: "User".into(), desc: None, dirs: vec![], kind: KindD::Object { fields: vec![f("id", "ID!")], implements: vec![] } },
+                q(vec![
+                    f("me", "User"),
+                    f("_service", "_Service!"),
+                    FieldD { args: vec![InputD { name: "representations".into(), ty: "[_Any!]!".into(), ..Default::default() }], ..f("_entities", "[_Entity]!") },
+                ]),
+            ],
+            directives: vec![],
+        },
+    ));
     // multi-line argument lists: description on the first / second / both
     v.push((
         "args-multiline",
@@ -1388,6 +1407,38 @@ mod clean {
     }
 }
 
+// a derive-built schema whose registry has federation enabled (an entity
+// resolver): the registry then holds _Any, _Entity, _Service and the root
+// fields _service / _entities; a plain (non-federation) export prints them all
+#[allow(non_snake_case)]
+mod fed {
+    use async_graphql::*;
+
+    /// A user
+    #[derive(SimpleObject)]
+    pub struct User {
+        pub id: ID,
+        pub name: String,
+    }
+
+    pub struct Query;
+
+    #[Object]
+    impl Query {
+        async fn probe(&self, ctx: &Context<'_>) -> bool {
+            super::run_probe(ctx);
+            true
+        }
+        async fn me(&self) -> User {
+            User { id: "1".into(), name: "n".into() }
+        }
+        #[graphql(entity)]
+        async fn find_user_by_id(&self, id: ID) -> User {
+            User { id, name: "n".into() }
+        }
+    }
+}
+
 // ------------------------------------------------------------------- main --
 #[derive(Clone, Copy, Debug)]
 struct Opts {
@@ -1520,13 +1571,18 @@ fn main() {
             ("derive".into(), None, true)
         } else if schema_no == corpus.len() + 1 {
             ("derive-clean".into(), None, true)
+        } else if schema_no == corpus.len() + 2 {
+            ("derive-fed-entity".into(), None, true)
+        } else if schema_no == corpus.len() + 3 {
+            ("derive-clean-fed-enabled".into(), None, true)
         } else {
             let nasty = schema_no % 3 == 0;
             (if nasty { "gen-nasty".into() } else { "gen".into() }, Some(gen_schema(&mut rng, nasty)), false)
         };
         let with_system = schema_no == 0 || fixed_schema;
-        let clean_schema = fixed_schema && label == "derive-clean";
-        let defaults = if let Some(d) = &desc { collect_defaults(d) } else if clean_schema { clean::defaults() } else { fixed::defaults() };
+        let clean_schema = fixed_schema && (label == "derive-clean" || label == "derive-clean-fed-enabled");
+        let fed_schema = fixed_schema && label == "derive-fed-entity";
+        let defaults = if let Some(d) = &desc { collect_defaults(d) } else if clean_schema { clean::defaults() } else if fed_schema { HashMap::new() } else { fixed::defaults() };
         let dumped: Arc<Mutex<Option<(String, Vec<String>)>>> = Arc::new(Mutex::new(None));
         {
             let dumped = dumped.clone();
@@ -1541,8 +1597,13 @@ fn main() {
             Gen(Schema<GenQuery, EmptyMutation, EmptySubscription>),
             Fixed(Schema<fixed::Query, EmptyMutation, EmptySubscription>),
             Clean(Schema<clean::Query, EmptyMutation, EmptySubscription>),
+            Fed(Schema<fed::Query, EmptyMutation, EmptySubscription>),
         }
-        let sch = if clean_schema {
+        let sch = if fed_schema {
+            Sch::Fed(Schema::build(fed::Query, EmptyMutation, EmptySubscription).finish())
+        } else if clean_schema && label == "derive-clean-fed-enabled" {
+            Sch::Clean(Schema::build(clean::Query, EmptyMutation, EmptySubscription).enable_federation().finish())
+        } else if clean_schema {
             Sch::Clean(Schema::build(clean::Query, EmptyMutation, EmptySubscription).finish())
         } else if fixed_schema {
             Sch::Fixed(Schema::build(fixed::Query, EmptyMutation, EmptySubscription).finish())
@@ -1558,6 +1619,9 @@ fn main() {
                 block_on(s.execute(Request::new("{ probe }")));
             }
             Sch::Clean(s) => {
+                block_on(s.execute(Request::new("{ probe }")));
+            }
+            Sch::Fed(s) => {
                 block_on(s.execute(Request::new("{ probe }")));
             }
         }
@@ -1583,6 +1647,7 @@ fn main() {
                 Sch::Gen(s) => s.sdl_with_options(o.real()),
                 Sch::Fixed(s) => s.sdl_with_options(o.real()),
                 Sch::Clean(s) => s.sdl_with_options(o.real()),
+                Sch::Fed(s) => s.sdl_with_options(o.real()),
             };
             let parsed = match async_graphql::parser::parse_schema(&sdl) {
                 Ok(doc) => g_service(&doc),
